@@ -142,4 +142,35 @@ def run(ctx):
     for m in roles.reentrant:
         d = rm.run_method(ctx, m, 'idle')
         check_idle(res, cd, d, m, '%s (idle)' % m.qualname, fields, tl=False)
+
+    # ---- C09.e the per-run fields proved idle above are all the state a run can leave on the recorder
+    from . import common
+    ce = res.clause('C09.e', 'R-WHOCALLS', 'outside the constructor the recorder writes only the per-run fields (proved idle) and the enabled switch', floor=4)
+    per_run = set(roles.per_run_fields) | {roles.enabled}
+    tl = getattr(roles, 'thread_local', None)
+    for m in list(roles.cls.methods.values()) + list(roles.cls.setters.values()):
+        if m.name == '__init__':
+            continue
+        todo = [m] + [f for f in m.nested.values() if not isinstance(f, list)]
+        seen_fn = []
+        while todo:
+            f = todo.pop()
+            if f in seen_fn:
+                continue
+            seen_fn.append(f)
+            todo.extend(x for x in f.nested.values() if not isinstance(x, list))
+        for f in seen_fn:
+            for n, w in common.instance_writes(f.node):
+                fld = w.split('self.')[1].split(' ')[0].split('.')[0].split('(')[0]
+                ok = fld in per_run or (tl is not None and fld == tl) or fld in roles.cls.setters      # a property: its setter is examined itself
+                # class-level configuration registered by decorators at import time (recording parameters per class)
+                if not ok and w.startswith('an entry of') and any(isinstance(x, ast.Name) and x.id in f.all_param_names for x in ast.walk(n)) and \
+                        f.qualname.split('.')[1] not in (roles.play.name, roles.start.name):
+                    ok = True
+                ce.instance('%s: %s' % (f.qualname, w), f.qualname, ok)
+                ce.evaluations += 1
+                if not ok:
+                    res.add(Finding('C09', 'C09.e', 'R-WHOCALLS', f.file, f.qualname, n.lineno, norm(n)[:120],
+                                    '%s in %s: this is recorder state outside the per-run fields that are reset when a run ends, so a later run '
+                                    '(recording or replay) can depend on an earlier one' % (w, f.qualname)))
     return res
